@@ -162,6 +162,22 @@ class Hist:
 		code, *_ = self.cli(['-d', self.db, 'query', '-f', fmt, '-o', self.out(fmt), '--no-progress'] + (['--strict'] if strict else []) + (['-c', 2] if self.rng.random() < 0.3 else []) + files)
 		return f'query files -f {fmt}{" --strict" if strict else ""} -> {code}'
 
+	def step_output_inside_db_dir(self):
+		"""Results written INTO the database directory (a user working inside it), twice to the same path: the two database files stay
+		untouched and the database still loads afterwards."""
+		o = self.db / 'results.csv'
+		r1 = self.cli(['-d', self.db, 'query', '-o', o, '--no-progress'] + [str(f) for f in self.qfiles[:2]])
+		r2 = self.cli(['-d', self.db, 'query', '-f', 'json', '-o', self.db / 'results.json', '--no-progress', str(self.qfiles[0])])
+		r3 = self.cli(['-d', self.db, 'query', '-o', o, '--no-progress', str(self.qfiles[0])])
+		if r3[0] != 0:
+			self.ctx.violation('database-unusable-after-read-side-use', f'query failed (exit {r3[0]}) after results were written into the database directory: {r3[2][-200:]} {r3[3]}', dict(step='output_inside_db_dir'))
+		for f in ('results.csv', 'results.json'):
+			try:
+				(self.db / f).unlink()
+			except OSError:
+				pass
+		return f'query -o <dbdir>/results.csv -> {r1[0]}, json -> {r2[0]}, again -> {r3[0]}'
+
 	def step_sigs_create(self):
 		self.qsig = self.out('gs')
 		code, *_ = self.cli(['-d', self.db, 'signatures', 'create', '--db-params', '-o', self.qsig, '--no-progress'] + self.qfiles[:3])
@@ -410,7 +426,7 @@ class Hist:
 		return f'two console-script queries at once -> {res}'
 
 
-STEP_WEIGHTS = [('query_files', 5), ('query_sigs', 3), ('sigs_create', 2), ('dist_usedb', 3), ('info', 3), ('tree', 1), ('fail', 5), ('library', 3), ('orm', 4), ('cli_session', 2), ('concurrent', 1), ('explicit_writable_maker', 3), ('default_session_direct', 3), ('taxonomy_reads', 4)]
+STEP_WEIGHTS = [('query_files', 5), ('query_sigs', 3), ('sigs_create', 2), ('dist_usedb', 3), ('info', 3), ('tree', 1), ('fail', 5), ('library', 3), ('orm', 4), ('cli_session', 2), ('concurrent', 1), ('explicit_writable_maker', 3), ('default_session_direct', 3), ('taxonomy_reads', 4), ('output_inside_db_dir', 2)]
 
 
 def run_hist(sh, ctx):
